@@ -149,6 +149,7 @@ namespace
             make_clients_pod4096(clients);
             make_clients_over32(clients);
             make_clients_over64(clients);
+            make_clients_raw(clients);
             size_t before = clients.size();
             make_clients_default(clients);
             for (size_t i = before; i < clients.size(); ++i)
@@ -579,6 +580,17 @@ namespace
                         if (op.n == 0)
                         {
                             // n = 0: a null result is acceptable
+                            break;
+                        }
+                        if (c.reports_failure_by_null())
+                        {
+                            // aligned_malloc's way of reporting failure: judged like a thrown bad_alloc
+                            ++cl_alloc_throw;
+                            if (h.live_blocks() != live_before)
+                                out.violate("C18/leak", sim::fmt("aligned_malloc(%llu, %zu) returned nullptr but the heap's live set changed (%zu -> %zu blocks)", (unsigned long long)op.n, c.align(),
+                                                                 live_before, h.live_blocks()));
+                            if (!heap_refused && bytes <= ((unsigned __int128)1 << 32))
+                                out.violate("C18/spurious-failure", sim::fmt("aligned_malloc(%llu, %zu) returned nullptr although the heap refused nothing", (unsigned long long)op.n, c.align()));
                             break;
                         }
                         out.violate("C18/no-throw-on-failure", sim::fmt("allocate(%llu) returned nullptr without throwing std::bad_alloc", (unsigned long long)op.n));
